@@ -19,6 +19,8 @@ def _sid(gen, vt, victim_is_server):
     peer_parity = 1 if victim_is_server else 0      # ids the stub (peer of victim) may open
     k = rng.randrange(12)
     live = [s for s in vt.streams.values()]
+    if getattr(gen, 'adv_new_streams', 0) and rng.random() < gen.adv_new_streams:
+        return vt.hi_peer + 2 if vt.hi_peer else (1 if peer_parity else 2)
     if k <= 3 and live:
         return rng.choice(live).sid
     if k == 4:
@@ -99,6 +101,12 @@ def draw(gen):
         return None
     victim_is_server = (victim == 's')
     frames = []
+    if rng.random() < gen.P.get('adv_plausible', 0.55) and not vt.closed:
+        frames = _plausible(gen, vt, victim_is_server, stub)
+        if frames:
+            raw = b''.join(f.serialize() for f in frames)
+            return {'ev': 'inject', 'dir': d, 'pos': pos, 'bytes': raw}
+        frames = []
     t = rng.choice([C.DATA, C.DATA, C.HEADERS, C.HEADERS, C.HEADERS, C.PRIORITY, C.RST_STREAM, C.SETTINGS,
                     C.PUSH_PROMISE, C.PING, C.GOAWAY, C.WINDOW_UPDATE, C.WINDOW_UPDATE, C.CONTINUATION,
                     C.ALTSVC, rng.choice([11, 12, 0x20, 0xff])])
@@ -199,6 +207,79 @@ def draw(gen):
             b[0:3] = struct.pack('>I', rng.choice([0, 1, 4, 5, 8, 2 ** 14 + 1, 2 ** 24 - 1]))[1:]
         raw += b
     return {'ev': 'inject', 'dir': d, 'pos': pos, 'bytes': bytes(raw)}
+
+
+def _enc(pairs):
+    return RefEncoder().encode([(n.encode() if isinstance(n, str) else n, v.encode() if isinstance(v, str) else v)
+                                for n, v in pairs])
+
+
+def _plausible(gen, vt, victim_is_server, stub):
+    """A frame that is valid in the victim's current state (so that runs go deep
+    and the rare invalid frame meets interesting states)."""
+    rng = gen.rng
+    hg = gen.hg[stub]
+    live = [s for s in vt.streams.values() if s.state != 'closed']
+    k = rng.randrange(10)
+    mf = vt.mine[C.S_MAX_FRAME_SIZE]
+    if k <= 2 and victim_is_server:
+        sid = vt.hi_peer + 2 if vt.hi_peer else 1
+        if sid > MAXID:
+            return []
+        hl = [(h[0].strip().lower() if isinstance(h[0], str) else h[0].strip().lower(), h[1].strip())
+              for h in hg.request()]
+        hl = [h for h in hl if h[0] not in ('connection', b'connection', 'keep-alive', b'keep-alive', 'proxy-connection',
+                                             b'proxy-connection', 'upgrade', b'upgrade', 'transfer-encoding',
+                                             b'transfer-encoding') and h[0] not in ('te', b'te') and h[0]]
+        return [C.mk_headers(sid, _enc(hl), rng.random() < 0.4, True, None, None)]
+    if k <= 2 and not victim_is_server:
+        cands = [s for s in live if s.mine and not s.pushed and s.state in ('open', 'hcL') and s.recv in ('none', 'info')]
+        if not cands:
+            return []
+        st = rng.choice(cands)
+        hl = [(':status', rng.choice(['200', '404', '100']))]
+        es = hl[0][1] != '100' and rng.random() < 0.4
+        return [C.mk_headers(st.sid, _enc(hl), es, True, None, None)]
+    if k == 3:
+        cands = [s for s in live if s.state in ('open', 'hcL') and s.recv == 'final']
+        if not cands:
+            return []
+        st = rng.choice(cands)
+        room = min(vt.conn_recv, st.recv_win, mf)
+        if room < 0:
+            return []
+        n = rng.choice([0, 1, min(room, 100), room])
+        return [C.mk_data(st.sid, b'p' * n, rng.random() < 0.3, None)]
+    if k == 4:
+        return [C.mk_ping(bytes(rng.randrange(256) for _ in range(8)), False)]
+    if k == 5:
+        from .gen import SETTING_VALUES
+        key = rng.choice([3, 4, 5, 6, 8])
+        return [C.mk_settings([(key, rng.choice(SETTING_VALUES[key]))])]
+    if k == 6 and live:
+        st = rng.choice(live)
+        room = MAXID - st.send_win
+        if room < 1:
+            return []
+        return [C.mk_window_update(st.sid, min(room, rng.choice([1, 100, 65535])))]
+    if k == 7 and live:
+        return [C.mk_rst(rng.choice(live).sid, rng.choice([0, 8, 2]))]
+    if k == 8:
+        sid = rng.choice([s.sid for s in vt.streams.values()] + [vt.hi_peer + 2, 9, 11])
+        dep = rng.choice([0, 1, 3, 5])
+        if dep == sid or sid == 0:
+            return []
+        return [C.mk_priority(sid, dep, rng.random() < 0.5, rng.randrange(256))]
+    if k == 9 and not victim_is_server:
+        cands = [s for s in live if s.mine and not s.pushed and s.state in ('open', 'hcL')]
+        if not cands or not vt.mine.get(C.S_ENABLE_PUSH, 1):
+            return []
+        st = rng.choice(cands)
+        promised = max([x.sid for x in vt.streams.values() if x.sid % 2 == 0] + [vt.hi_peer, 0]) + 2
+        promised += promised % 2
+        hl = [(':method', 'GET'), (':scheme', 'https'), (':authority', 'a'), (':path', '/pushed')]
+        return [C.mk_push_promise(st.sid, promised, _enc(hl), True, None)]
+    return []
 
 
 def _split(rng, data, n):
